@@ -6,6 +6,9 @@ HERE = os.path.dirname(os.path.dirname(os.path.abspath(__file__)))
 
 # id -> (technique, level text, level note, design ref)
 CHECKS = {
+ "C01": ("proptest-generated application trees and requests; differential against a reference segment matcher over the flattened route table (four readings of the preference rule), plus metamorphic order-independence (same tree built in shuffled registration order)",
+         "Exploration: tens of thousands of generated route trees (colliding static names, params, mounts, split method sets) each probed by up to 25 adversarial requests, built twice in different registration orders through the real public API and dispatched through the real parser, router and serializer. Right level: the property quantifies over configurations × inputs with a cheap exact oracle.",
+         "the reference matcher and its four readings of 'preferred at each position'; refusals at build time are not applications; only rt_tokio; ≤2 params per route (documented limit)", "DESIGN.md §7 C01"),
  "C20": ("exhaustive enumeration of days/seconds/small integers + proptest-generated timestamps and 64-bit integers against an independent civil-from-days / std formatting oracle",
          "Exploration; the sub-space 'first second of every day up to 9999-12-31, every second of day on ~35 days, every n < 10^6' is enumerated completely, the remaining inputs are sampled. Right level: the functions are pure, cheap, and have a trivially independent oracle, so near-total input coverage is affordable.",
          "std formatting and the oracle's civil-from-days (cross-checked against chrono and httpdate each run) are trusted", "DESIGN.md §7 C20"),
